@@ -128,6 +128,61 @@ def check(run):
             steps = [x for x in ir.calls_in(lp) if callee_qn(x) == "%s::%s" % (cls, sp["step"])]
             cmp_ok = isinstance(c, dict) and c.get("k") == "Bin" and c.get("op") == "!=" and \
                 (const_value(c["rhs"]) == sp["end_code"] or const_value(c["lhs"]) == sp["end_code"])
+            if not cmp_ok:
+                # the step reports through a result struct: `while (!step(.., FINISH).finished);` where every return of the step
+                # sets that member to `<library result> == <stream-end code>`
+                cu = unwrap_all_casts(c)
+                if isinstance(cu, dict) and cu.get("k") == "Un" and cu.get("op") == "!":
+                    m_ = unwrap_all_casts(cu.get("e"))
+                    b_ = unwrap_all_casts(m_.get("base")) if isinstance(m_, dict) and m_.get("k") == "Member" and m_.get("field") else None
+                    while isinstance(b_, dict) and b_.get("k") == "Construct" and b_.get("copymove") and len(b_.get("args", [])) == 1:
+                        b_ = unwrap_all_casts(b_["args"][0])
+                    if isinstance(b_, dict) and b_.get("k") == "Ref" and b_.get("d") == "local":
+                        # `do { r = step(.., FINISH); } while (!r.finished);` - the local the loop body assigns the step's result to
+                        asg_ = [rhs for lp, rhs, n_ in consumption.assignment_targets(ir.stmts(lp["body"])) if lp == path(b_)] if False else \
+                            [rhs for lp_, rhs, n_ in consumption.assignment_targets(ir.stmts(lp.get("body"))) if lp_ == path(b_)]
+                        if len(asg_) == 1:
+                            b2 = unwrap_all_casts(asg_[0])
+                            while isinstance(b2, dict) and b2.get("k") == "Construct" and b2.get("copymove") and len(b2.get("args", [])) == 1:
+                                b2 = unwrap_all_casts(b2["args"][0])
+                            b_ = b2
+                    if isinstance(b_, dict) and b_.get("k") == "MCall" and callee_qn(b_) == "%s::%s" % (cls, sp["step"]):
+                        rec_ = facts.records.get((b_.get("t") or "").replace("const ", "")) or {}
+                        names_ = [f_["n"] for f_ in rec_.get("fields", [])]
+                        if m_["n"] in names_:
+                            idx_ = names_.index(m_["n"])
+                            rets_ = [r_ for r_ in ir.walk(step["body"]) if r_.get("k") == "Return" and r_.get("e") is not None]
+                            envs_ = Env(step["body"])
+
+                            def end_test(e_):
+                                u_ = unwrap_all_casts(e_)
+                                if isinstance(u_, dict) and u_.get("k") == "Ref" and u_.get("d") == "local" and envs_.defs.get(path(u_)[0]) is not None:
+                                    u_ = unwrap_all_casts(envs_.defs[path(u_)[0]])
+                                if not (isinstance(u_, dict) and u_.get("k") == "Bin" and u_.get("op") == "=="):
+                                    return False
+                                sides_ = [u_["lhs"], u_["rhs"]]
+                                hasc = any(const_value(x_) == sp["end_code"] for x_ in sides_)
+                                hasr = False
+                                for x_ in sides_:
+                                    xu = unwrap_all_casts(x_)
+                                    dx = envs_.defs.get(path(xu)[0]) if isinstance(xu, dict) and path(xu) and len(path(xu)) == 1 else None
+                                    if dx is not None and any(callee_name(k_) == sp["code"] for k_ in ir.calls_in(dx)):
+                                        hasr = True
+                                return hasc and hasr
+                            good_ = bool(rets_)
+                            for r_ in rets_:
+                                il = unwrap_all_casts(r_["e"])
+                                while isinstance(il, dict) and il.get("k") == "Construct" and len(il.get("args", [])) == 1:
+                                    il = unwrap_all_casts(il["args"][0])
+                                if isinstance(il, dict) and il.get("k") == "Ref" and il.get("d") == "local":
+                                    # a local result filled member by member
+                                    sets_ = [rhs for lp, rhs, n_ in consumption.assignment_targets(ir.stmts(step["body"])) if lp == (path(il)[0], m_["n"])]
+                                    good_ = good_ and len(sets_) == 1 and end_test(sets_[0])
+                                elif isinstance(il, dict) and il.get("k") == "InitList" and len(il.get("c", [])) == len(names_):
+                                    good_ = good_ and end_test(il["c"][idx_])
+                                else:
+                                    good_ = False
+                            cmp_ok = good_
             fin_ok = len(steps) == 1 and const_value(steps[0]["args"][-1]) == sp["finish_val"]
             order = {id(n): i for i, n in enumerate(ir.walk(cl["body"]))}
             ends = [x for x in ir.calls_in(cl["body"]) if callee_name(x) == sp["end"]]
@@ -154,6 +209,13 @@ def check(run):
             cap = unwrap_all_casts(ao)
             a0 = path(unwrap_all_casts(fw[0]["args"][0]))
             ln = unwrap_all_casts(fw[0]["args"][1])
+            # the produced count may sit in a member of a local result struct that is stored once, in front of the write
+            lnp = path(ln) if isinstance(ln, dict) else None
+            if lnp and len(lnp) == 2 and lnp[0].startswith("l:"):
+                sets_ = [(rhs, n_) for lp, rhs, n_ in consumption.assignment_targets(ir.stmts(step["body"])) if lp == lnp]
+                order_s = {id(x_): i_ for i_, x_ in enumerate(ir.walk(step["body"]))}
+                if len(sets_) == 1 and order_s[id(sets_[0][1])] < order_s[id(fw[0])]:
+                    ln = unwrap_all_casts(sets_[0][0])
             cap_txt = show(cap)
             ln_ok = False
             if isinstance(ln, dict) and ln.get("k") == "Bin" and ln.get("op") == "-":
